@@ -286,6 +286,8 @@ def shrink_candidates(req):
     """token-level and byte-level reductions of the hex arguments of a request line"""
     f = req.split(" ")
     cands = []
+    if f[0] == "pair":
+        return []       # the two arguments are related by construction; independent reductions would break the relation
     if f[0] == "hist":
         # drop one op; simplify nothing else
         for i in range(2, len(f)):
